@@ -348,8 +348,12 @@ class World(object):
                        part=_call(lambda: {s: sorted(ri + 1 for ri in sys_.substance_participation(s)) for s in names}),
                        eff=_call(f_eff))
         if kind == "order":
+            last = list(sys_.substances)[-1]
+            col, _ = sys_.per_substance_varied(dict(arg), {last: [77]})
             return _ok(names=list(sys_.substance_names()),
-                       arr=[_int(x) for x in sys_.as_per_substance_array(dict(arg))])
+                       arr=[_int(x) for x in sys_.as_per_substance_array(dict(arg))],
+                       idx={s: _int(sys_.as_substance_index(s)) for s in sys_.substances},
+                       col=_int_nested(col.tolist()))
         if kind == "dot":
             from chempy.util.graph import rsys2dot
             return parse_dot(rsys2dot(sys_, rref0=arg["rref0"], include_inactive=bool(arg["inact"])))
@@ -386,7 +390,10 @@ class World(object):
             conc = {s: v / float(arg["den"]) for s, v in arg["c"].items()}
             if arg["form"] == "list":
                 conc = [conc[s] for s in sys_.substances]
-            ub = [_q(x) for x in sys_.upper_conc_bounds(conc)]
+            kw = {}
+            if list(arg["skip"]) != ["0"]:      # ["0"] is the default skip_keys=(0,)
+                kw["skip_keys"] = tuple(int(k) for k in arg["skip"])
+            ub = [_q(x) for x in sys_.upper_conc_bounds(conc, **kw)]
             if None in ub:
                 return _bad("unencodable")
             return _ok(ub=ub)
@@ -427,7 +434,7 @@ class World(object):
         return _ok(sum=sorted(m[:len(sum_.rxns)]), dup=sorted(m[len(sum_.rxns):]))
 
     def step(self, h):
-        fn = {"QueryCat": self.query_cat, "DoSort": self.do_sort, "Make": self.make, "DoSplit": self.do_split, "DoSubset": self.do_subset, "DoAdd": self.do_add,
+        fn = {"QueryCat": self.query_cat, "DoSort": self.do_sort, "Peek": self.query, "Make": self.make, "DoSplit": self.do_split, "DoSubset": self.do_subset, "DoAdd": self.do_add,
               "Query": self.query, "Query2": self.query2}.get(h["op"])
         if fn is None:
             raise core.MachineryFailure("unknown operation %r" % (h,))
@@ -522,9 +529,15 @@ def _judge_traces(ctx, items, direction):
         if clause.startswith("model:"):
             raise core.MachineryFailure("recorded trace outside the model: %s at %d: %r" % (clause, pos, tr[:pos]))
         e = tr[pos - 1]
-        ctx.violation({"fn": FN.get(e.get("kind") if e["op"].startswith("Query") else e["op"], e["op"]), "clause": clause},
+        ctx.violation({"fn": FN.get(e.get("kind") if (e["op"].startswith("Query") or e["op"] == "Peek") else e["op"], e["op"]), "clause": clause},
                       {"direction": direction, "trace": tr, "observed": e["obs"],
                        "verdict": {"verdict": v, "pos": pos, "clause": clause}, "tlc_cfg": "RSysGraphTrace.cfg"})
+
+
+def _peek_then_change(c):
+    """sampling class of histories that ask an instance, change it (sort / +=) and ask it again"""
+    tag = c["cls"].partition(":")[2]
+    return "K" in tag and any(ch in "OA" for ch in tag[tag.index("K") + 1:])
 
 
 def _nontrivial(hist):
@@ -541,7 +554,7 @@ def _slice(ctx, cfg, n_pick, actions, via_tlc=False, min_cases=50, always=None):
     to_tlc = []
     for c, hist, obs in zip(sel, hists, outs):
         ctx.ran({"h": hist}, nontrivial=_nontrivial(hist))
-        if via_tlc and any(h["op"].startswith("Do") for h in hist):
+        if via_tlc and any(h["op"].startswith("Do") or h["op"] == "Peek" for h in hist):
             to_tlc.append((hist[:len(obs)], obs))
             continue
         if len(obs) < len(hist):
@@ -670,7 +683,8 @@ def gen_history(arg):
             return hist, obs
         for _ in range(rng.randint(1, 3)):
             c0 = {"c": {s: rng.randint(0, 9) for s in w.ws[0].substances}, "den": rng.choice([1, 1, 2, 4, 8]),
-                  "form": rng.choice(["dict", "list"])}
+                  "form": rng.choice(["dict", "list"]),
+                  "skip": rng.choice([["0"], ["0"], [], ["1"], ["0", "8"], ["6", "0"], ["8"]])}
             if not do({"op": "Query", "i": 1, "kind": "bounds", "arg": c0}):
                 break
         return hist, obs
@@ -679,71 +693,78 @@ def gen_history(arg):
             return hist, obs
     if not w.ws:
         return hist, obs
-    while len(hist) < nops:
-        n = len(w.ws)
-        i, j = rng.randint(1, n), rng.randint(1, n)
-        x = rng.random()
-        sys_ = w.ws[i - 1]
-        names = list(sys_.substances)
-        if x < 0.15:
-            h = {"op": "DoSplit", "i": i}
-        elif x < 0.30:
-            p = rng.choice([{"kind": "has", "s": rng.choice(SPECIES12), "n": 0},
-                            {"kind": "consumes", "s": rng.choice(SPECIES12), "n": 0},
-                            {"kind": "order", "s": "", "n": rng.randint(1, 3)},
-                            {"kind": "nprod", "s": "", "n": rng.randint(1, 2)},
-                            {"kind": "named", "s": rng.choice(["n1", "n2", "n3", ""]), "n": 0}])
-            h = {"op": "DoSubset", "i": i, "p": p} if rng.random() < 0.5 else {"op": "Query", "i": i, "kind": "subset", "arg": p}
-        elif x < 0.45:
-            how = rng.choice(["add", "iadd", "add", "iadd"] + [a + "-" + f for a in ("add", "iadd")
-                                                               for f in ("list", "tuple", "gen", "iter", "map")])
-            if (how.startswith("iadd") and i == j) or sys_.nr + w.ws[j - 1].nr > 10:
-                continue
-            if "-" in how and not set().union(*[r.keys() for r in w.ws[j - 1].rxns] or [set()]) <= set(sys_.substances):
-                continue
-            h = {"op": "DoAdd", "i": i, "j": j, "how": how}
-        elif x < 0.50:
-            h = {"op": "DoSort", "i": i, "how": rng.choice(["name", "rev"])}
-        elif x < 0.54:
-            if not names:
-                continue
-            h = {"op": "Query", "i": i, "kind": "order", "arg": {s: rng.randint(0, 99) for s in names}}
-        elif x < 0.62:
-            h = {"op": "Query", "i": i, "kind": "graph", "arg": []}
-        elif x < 0.70:
-            h = {"op": "Query", "i": i, "kind": "dot", "arg": {"inact": rng.random() < 0.5, "rref0": rng.randint(0, 3)}}
-        elif x < 0.78:
-            if not names:
-                continue
-            vo = rng.sample(names, rng.randint(1, min(3, len(names))))
-            h = {"op": "Query", "i": i, "kind": "conv",
-                 "arg": {"d": {s: rng.randint(0, 99) for s in names}, "a": [rng.randint(0, 99) for _ in names],
-                         "vorder": vo, "vals": {s: [rng.randint(0, 99) for _ in range(rng.randint(1, 3))] for s in vo}}}
-        elif x < 0.88:
-            if sys_.nr == 0 or sys_.nr > 4:
-                continue
-            k = [rng.randint(0, 5) for _ in range(sys_.nr)]
-            keys = sorted(set.union(*[r.keys() for r in sys_.rxns]))
-            net = sys_.net_stoichs(keys)
-            y = {s: int(sum(k[ri] * int(net[ri][ci]) for ri in range(sys_.nr))) for ci, s in enumerate(keys)}
-            ko = list(keys)
-            rng.shuffle(ko)
-            h = {"op": "Query", "i": i, "kind": "yields", "arg": {"k": k, "y": y, "den": rng.choice([1, 2, 4]), "korder": ko}}
-        elif x < 0.96:
-            h = {"op": "Query2", "i": i, "j": j, "kind": rng.choice(["add", "eq"])}
-        else:
-            if n >= 3 and rng.random() < 0.6:
-                h = {"op": "QueryCat", "js": rng.sample(range(1, n + 1), rng.randint(2, min(4, n))), "kind": "concatn"}
-                if sum(w.ws[k - 1].nr for k in h["js"]) > 20:
+    # inspecting the real objects to choose the next operation must not crash the generator:
+    # whatever they do, the steps recorded so far are judged
+    try:
+        while len(hist) < nops:
+            n = len(w.ws)
+            i, j = rng.randint(1, n), rng.randint(1, n)
+            x = rng.random()
+            sys_ = w.ws[i - 1]
+            names = list(sys_.substances)
+            if x < 0.15:
+                h = {"op": "DoSplit", "i": i}
+            elif x < 0.30:
+                p = rng.choice([{"kind": "has", "s": rng.choice(SPECIES12), "n": 0},
+                                {"kind": "consumes", "s": rng.choice(SPECIES12), "n": 0},
+                                {"kind": "order", "s": "", "n": rng.randint(1, 3)},
+                                {"kind": "nprod", "s": "", "n": rng.randint(1, 2)},
+                                {"kind": "named", "s": rng.choice(["n1", "n2", "n3", ""]), "n": 0}])
+                h = {"op": "DoSubset", "i": i, "p": p} if rng.random() < 0.5 else {"op": "Query", "i": i, "kind": "subset", "arg": p}
+            elif x < 0.45:
+                how = rng.choice(["add", "iadd", "add", "iadd"] + [a + "-" + f for a in ("add", "iadd")
+                                                                   for f in ("list", "tuple", "gen", "iter", "map")])
+                if (how.startswith("iadd") and i == j) or sys_.nr + w.ws[j - 1].nr > 10:
                     continue
+                if "-" in how and not set().union(*[r.keys() for r in w.ws[j - 1].rxns] or [set()]) <= set(sys_.substances):
+                    continue
+                h = {"op": "DoAdd", "i": i, "j": j, "how": how}
+            elif x < 0.50:
+                h = {"op": "DoSort", "i": i, "how": rng.choice(["name", "rev"])}
+            elif x < 0.54:
+                if not names:
+                    continue
+                h = {"op": "Query", "i": i, "kind": "order", "arg": {s: rng.randint(0, 99) for s in names}}
+            elif x < 0.62:
+                h = {"op": "Query", "i": i, "kind": "graph", "arg": []}
+            elif x < 0.70:
+                h = {"op": "Query", "i": i, "kind": "dot", "arg": {"inact": rng.random() < 0.5, "rref0": rng.randint(0, 3)}}
+            elif x < 0.78:
+                if not names:
+                    continue
+                vo = rng.sample(names, rng.randint(1, min(3, len(names))))
+                h = {"op": "Query", "i": i, "kind": "conv",
+                     "arg": {"d": {s: rng.randint(0, 99) for s in names}, "a": [rng.randint(0, 99) for _ in names],
+                             "vorder": vo, "vals": {s: [rng.randint(0, 99) for _ in range(rng.randint(1, 3))] for s in vo}}}
+            elif x < 0.88:
+                if sys_.nr == 0 or sys_.nr > 4:
+                    continue
+                k = [rng.randint(0, 5) for _ in range(sys_.nr)]
+                keys = sorted(set.union(*[r.keys() for r in sys_.rxns]))
+                net = sys_.net_stoichs(keys)
+                y = {s: int(sum(k[ri] * int(net[ri][ci]) for ri in range(sys_.nr))) for ci, s in enumerate(keys)}
+                ko = list(keys)
+                rng.shuffle(ko)
+                h = {"op": "Query", "i": i, "kind": "yields", "arg": {"k": k, "y": y, "den": rng.choice([1, 2, 4]), "korder": ko}}
+            elif x < 0.96:
+                h = {"op": "Query2", "i": i, "j": j, "kind": rng.choice(["add", "eq"])}
             else:
-                h = {"op": "Query2", "i": i, "j": j, "kind": "concat"}
-            do(h)
-            break  # concatenate updates its first argument in place: the workspace is no longer tracked
-        if not do(h):
-            break
-        if len(w.ws) > 10:
-            break
+                if n >= 3 and rng.random() < 0.6:
+                    h = {"op": "QueryCat", "js": rng.sample(range(1, n + 1), rng.randint(2, min(4, n))), "kind": "concatn"}
+                    if sum(w.ws[k - 1].nr for k in h["js"]) > 20:
+                        continue
+                else:
+                    h = {"op": "Query2", "i": i, "j": j, "kind": "concat"}
+                do(h)
+                break  # concatenate updates its first argument in place: the workspace is no longer tracked
+            if not do(h):
+                break
+            if len(w.ws) > 10:
+                break
+    except core.MachineryFailure:
+        raise
+    except Exception:
+        pass
     return hist, obs
 
 
@@ -800,9 +821,10 @@ def run(ctx):
     # (histories "add then subset" - class suffix :AS - are always replayed)
     _slice(ctx, "twin", 500 if q else None, [], via_tlc=True, min_cases=3000,
            always=lambda c: c["cls"].endswith(":AS"))
-    _slice(ctx, "hist_" + sfx, 1200 if q else 12000, ["PickRx", "GenMake", "GenSplit", "GenSubset", "GenAdd", "GenQuery", "GenQueryCat"], via_tlc=True)
+    _slice(ctx, "hist_" + sfx, 1200 if q else 12000, ["PickRx", "GenMake", "GenSplit", "GenSubset", "GenAdd", "GenQuery", "GenQueryCat"], via_tlc=True,
+           always=_peek_then_change)
     if not q:
-        _slice(ctx, "hist2_t", 12000, [], via_tlc=True)
+        _slice(ctx, "hist2_t", 12000, [], via_tlc=True, always=_peek_then_change)
     t0 = _t(ctx, "histories", t0)
     ctx.exhaustive = not q
     _code_to_spec(ctx, 500 if q else 12000)
